@@ -120,6 +120,74 @@ func judgeEntry(c *Ctx, k entryCase) {
 	}
 }
 
+// judgeEntryNeighbours: at every generation / validation entry point, a valid text is used first and then texts that
+// differ from it by one outside character (Unicode case-folding look-alikes of its letters, full-width forms, digits
+// 0/1/8/9, a line break, a blank inside): each of them must be refused there as well - whatever the previous call left
+// behind (a memo of the last decoded secret, a scratch buffer) must not stand in for decoding the text at hand.
+func judgeEntryNeighbours(c *Ctx, key []byte, rng *gen.RNG) {
+	r := c.R
+	valid := ref.Base32EncodeNoPad(key)
+	if len(valid) < 2 {
+		return
+	}
+	t := time.Unix(1700000000, 0)
+	suite := toCfg(ref.Suite{Raw: "OCRA-1:HOTP-SHA256-8:C-QN08", Hash: 1, Digits: 8, C: true, Q: true, Challenge: ref.QN08})
+	oin := toOCRAInput(ref.Input{Counter: ref.BE8(5), Challenge: []byte("12345678")})
+	wantH := ref.HOTP(key, 42, 8, ref.SHA256)
+	fold := map[byte][]string{'S': {"\u017f"}, 'K': {"\u212a"}, 'I': {"\u0131", "\u0130"}, 'O': {"0"}, 'L': {"1"}, 'B': {"8"}, 'G': {"9"}}
+	var bad []string
+	for i := 0; i < len(valid) && len(bad) < 24; i++ {
+		for _, f := range fold[valid[i]] {
+			bad = append(bad, valid[:i]+f+valid[i+1:])
+		}
+	}
+	p := 1 + rng.Intn(len(valid)-1)
+	bad = append(bad, valid[:p]+"\n"+valid[p:], valid[:p]+" "+valid[p:], valid[:p]+string(rune(0xFF00+int(valid[p])-0x20))+valid[p+1:], strings.ToLower(valid[:p])+"\u017f"+valid[p:])
+	ops := []struct {
+		name string
+		call func(text string) (okOrCode string, err error)
+	}{
+		{"GenerateHOTP", func(text string) (string, error) {
+			return otp.GenerateHOTP(text, 42, &otp.Param{Digits: 8, Algorithm: otp.SHA256})
+		}},
+		{"GenerateTOTP", func(text string) (string, error) { return otp.GenerateTOTP(text, t, nil) }},
+		{"GenerateOCRA", func(text string) (string, error) { return otp.GenerateOCRA(text, suite, oin) }},
+		{"ValidateHOTP", func(text string) (string, error) {
+			ok, err := otp.ValidateHOTP(text, wantH, 42, &otp.Param{Digits: 8, Algorithm: otp.SHA256})
+			return fmt.Sprint(ok), err
+		}},
+		{"ValidateTOTP", func(text string) (string, error) {
+			ok, err := otp.ValidateTOTP(text, ref.TOTP(key, 1700000000, 30, 6, ref.SHA1), t, nil)
+			return fmt.Sprint(ok), err
+		}},
+		{"ValidateOCRA", func(text string) (string, error) {
+			ok, err := otp.ValidateOCRA(text, ref.OCRA(key, ref.Suite{Raw: "OCRA-1:HOTP-SHA256-8:C-QN08", Hash: 1, Digits: 8, C: true, Q: true, Challenge: ref.QN08}, ref.Input{Counter: ref.BE8(5), Challenge: []byte("12345678")}), suite, oin)
+			return fmt.Sprint(ok), err
+		}},
+	}
+	for _, op := range ops {
+		for _, b := range bad {
+			if _, derr := ref.Base32Decode(b); derr == nil {
+				continue // happens to be a valid text again
+			}
+			var res string
+			var err error
+			pan := monCatch(func() {
+				op.call(valid) // the valid text first
+				res, err = op.call(b)
+			})
+			r.Eval(2)
+			r.Nontrivial("en|" + op.name + "|" + b)
+			if pan != nil {
+				r.Violate("C07|"+op.name+"|panic|invalid-after-valid", op.name+" panics on an invalid text used right after the valid one", "entry", entryCase{hexs(key), []string{valid, b}}, "an error", panicStr(pan))
+			} else if err == nil {
+				r.Violate("C07|"+op.name+"|invalid-accepted|after-the-valid-text", op.name+" accepts a text with a character outside the alphabet when it is used right after the valid text it resembles", "entry", entryCase{hexs(key), []string{valid, b}}, "an error", "result "+res)
+			}
+		}
+	}
+	r.Count("entry_point_invalid_neighbour_groups", 1)
+}
+
 func allSpellings(rng *gen.RNG, key []byte) []string {
 	enc := ref.Base32Encode(key)
 	seen := map[string]bool{}
@@ -394,6 +462,14 @@ func init() {
 			for _, e := range alt {
 				judgeEntry(c, e)
 				c.R.Count("entry_cases_in_shuffled_length_order", 1)
+			}
+			// invalid neighbours right after the valid text, at every entry point (keys whose text has plenty of S, K, I, O, L, B, G)
+			for i := 0; i < c.N(40, 400); i++ {
+				key := []byte(gen.Pick(rng, []string{"KISS-LOCK-KEY-SKILLS", "SKI BOOKS GO BIG", "kissing books is silly!", "JKLSSKKII"}))
+				if i%2 == 1 {
+					key = rng.Bytes(10 + rng.Intn(30))
+				}
+				judgeEntryNeighbours(c, key, rng)
 			}
 		},
 		Replay: func(c *Ctx, kind string, raw json.RawMessage) error {
